@@ -671,7 +671,18 @@ func c11GenScenario(r *rand.Rand) c11Scenario {
 	nf := 1 + r.Intn(2)
 	for f := 0; f < nf; f++ {
 		var b strings.Builder
-		b.WriteString("groups:\n- name: g\n  rules:\n")
+		b.WriteString("groups:\n- name: g\n")
+		if ng := r.Intn(9) - 2; ng > 0 { // group-level labels shared by the rules of the group
+			b.WriteString("  labels:\n")
+			for k := 0; k < ng; k++ {
+				key := fmt.Sprintf("glabel%d", k)
+				if k == 0 && r.Intn(3) == 0 {
+					key = pick(r, []string{"team", "severity"}) // collides with labels some rules set themselves (override)
+				}
+				fmt.Fprintf(&b, "    %s: gv%d\n", key, k)
+			}
+		}
+		b.WriteString("  rules:\n")
 		n := 2 + r.Intn(7)
 		for i := 0; i < n; i++ {
 			b.WriteString(c11RuleText(r, f*20+i))
@@ -696,6 +707,17 @@ func c11GenScenario(r *rand.Rand) c11Scenario {
 		cfg.WriteString(blk)
 		if r.Intn(3) == 0 { // a second block differing only in comment/value/severity text: the tie maker
 			blk2 := strings.NewReplacer("first", "second", "\"a\"", "\"b\"").Replace(blk)
+			if r.Intn(2) == 0 { // ... or also / only in severity: identical text from two check instances, different severity
+				if r.Intn(2) == 0 {
+					blk2 = strings.NewReplacer("\"a\"", "\"b\"").Replace(blk)
+				}
+				for _, sv := range []string{"info", "warning", "bug", "fatal"} {
+					if strings.Contains(blk2, "severity = \""+sv+"\"") {
+						blk2 = strings.Replace(blk2, "severity = \""+sv+"\"", "severity = \""+pick(r, []string{"info", "warning", "bug"})+"\"", 1)
+						break
+					}
+				}
+			}
 			cfg.WriteString(blk2)
 		}
 	}
@@ -759,6 +781,26 @@ func c11MultiBlocks(r *rand.Rand) string {
 	return b.String()
 }
 
+// known finding C11-tie-across-rules: two reports tie on the whole sort key (all scalars, all diagnostics) and differ only in the
+// entry they belong to (Rule / Owner / SymlinkTarget): not isEqual, both kept, left in arrival order by the stable sort.
+// Reachable: a check that reports a problem located on group-level data once per rule of the group (rule/reject on group labels).
+const c11RuleTieFinding = "C11-tie-across-rules"
+
+func c11RuleTieClass(stream []reporter.Report, desc []c11Rep) bool {
+	for i := range desc {
+		for j := range desc {
+			if i == j || !c11KeyEq(desc[i], desc[j]) || reporter.VerifIsEqual(stream[i], stream[j]) {
+				continue
+			}
+			a, b := desc[i], desc[j]
+			if a.Rule != b.Rule || a.Owner != b.Owner || a.Target != b.Target {
+				return true
+			}
+		}
+	}
+	return false
+}
+
 // c11CheckSettings: `check "<name>" { ... }` blocks with non-default values for the checks that have settings. The decoded
 // settings objects are shared by all workers through the context, so whatever a check does with them is schedule relevant.
 func c11CheckSettings(r *rand.Rand) string {
@@ -780,8 +822,22 @@ func c11BulkScenario(r *rand.Rand, nrules int, smelly bool) c11Scenario {
 		"sum(rate(foo[1m])) without(job) > 0", "foo{job=~\".+_prod\", cluster=~\"eu.*west.*\"} == 0", "up", "absent(foo{job=\"x\"})", "foo / bar",
 		"count(foo{job=~\"a.*b\"}) > 0 or count(bar{job=~\"c.*d\"}) > 0", "sum(foo) by(cluster) > 0", "sum(foo) by(cluster, env, job) > 0"}
 	var b strings.Builder
-	b.WriteString("groups:\n- name: bulk\n  rules:\n")
+	// groups of 6 rules with 0..8 group-level labels (data every rule of the group shares); rules add their own label keys,
+	// override a group label, or leave labels alone; annotations reference own, group and missing labels
+	b.WriteString("groups:\n")
+	glabels := 0
 	for i := 0; i < nrules; i++ {
+		if i%6 == 0 {
+			glabels = (i / 6) % 9
+			fmt.Fprintf(&b, "- name: bulk%d\n", i/6)
+			if glabels > 0 {
+				b.WriteString("  labels:\n")
+				for k := 0; k < glabels; k++ {
+					fmt.Fprintf(&b, "    glabel%d: gv%d\n", k, k)
+				}
+			}
+			b.WriteString("  rules:\n")
+		}
 		e := exprs[i%len(exprs)]
 		if i%4 == 3 {
 			fmt.Fprintf(&b, "  - record: job:bulk%d:sum\n    expr: %s\n", i, strings.TrimSuffix(strings.TrimSuffix(strings.TrimSuffix(e, " > 0"), " == 0"), " > 1"))
@@ -791,11 +847,16 @@ func c11BulkScenario(r *rand.Rand, nrules int, smelly bool) c11Scenario {
 		if i%3 == 0 {
 			fmt.Fprintf(&b, "    for: %s\n", pick(r, []string{"1m", "0s", "5m"}))
 		}
-		if i%5 == 0 {
+		switch i % 5 {
+		case 0:
 			b.WriteString("    labels:\n      team: a\n")
+		case 1, 2: // a key of its own (not a group label)
+			fmt.Fprintf(&b, "    labels:\n      own%d: \"{{ $labels.job }}-%d\"\n", i, i)
+		case 3: // overrides a group label (when the group has one) and adds one
+			fmt.Fprintf(&b, "    labels:\n      glabel0: mine%d\n      extra%d: x\n", i, i)
 		}
 		if i%2 == 0 {
-			b.WriteString("    annotations:\n      summary: \"{{ $labels.job }} on {{ $labels.missing }}\"\n")
+			fmt.Fprintf(&b, "    annotations:\n      summary: \"{{ $labels.job }} on {{ $labels.missing }} {{ $labels.own%d }} {{ $labels.glabel1 }}\"\n", i)
 		}
 	}
 	cfg := fmt.Sprintf("check \"promql/regexp\" {\n  smelly = %v\n}\n", smelly) +
@@ -1177,7 +1238,13 @@ func runC11(args []string) int {
 	if race > 0 { // thorough: big enough for lost updates to become visible in the output, not only to the race detector
 		bulkN, ciN = 330, 1500
 	}
-	scens := []c11Scenario{c11TieScenario(6), c11TieScenario(40), c11PosTieScenario(1), c11PosTieScenario(12),
+	// two label blocks with different String() (value) whose problems on a rule without the label have identical text and
+	// differ only in severity
+	sevTie := c11TieScenario(12)
+	sevTie.Config = "rule {\n  label \"team\" {\n    required = true\n    value = \"a\"\n    severity = \"warning\"\n  }\n}\n" +
+		"rule {\n  label \"team\" {\n    required = true\n    value = \"b\"\n    severity = \"bug\"\n  }\n}\n"
+	sevTie.Kind = "severity-tie-witness"
+	scens := []c11Scenario{c11TieScenario(6), c11TieScenario(40), sevTie, c11PosTieScenario(1), c11PosTieScenario(12),
 		c11BulkScenario(r, bulkN, false), c11BulkScenario(r, bulkN, true), c11CIScenario(r, ciN), c11AggregateTwoScenario(1), c11AggregateTwoScenario(16)}
 	nfixed := len(scens)
 	for len(scens) < nscen {
@@ -1198,7 +1265,7 @@ func runC11(args []string) int {
 		JSON    string `json:"json"`
 		Stderr  string `json:"stderr"`
 	}
-	runBinary := func(si int, dir string, sc c11Scenario, inProcessJSON *string) {
+	runBinary := func(si int, dir string, sc c11Scenario, inProcessJSON *string, knownTie bool) {
 		args := func(w int, jp string) []string {
 			if sc.BaseFiles != nil {
 				return []string{"--no-color", "--offline", "-c", ".pint.hcl", "--workers", fmt.Sprint(w), "ci", "--json", jp}
@@ -1238,8 +1305,13 @@ func runC11(args []string) int {
 				continue
 			}
 			if bo.Exit != ref.Exit || bo.JSON != ref.JSON || bo.Stderr != ref.Stderr {
-				rep.fail(fmt.Sprintf("scen%d-w%d", si, w), fmt.Sprintf("pint output differs between --workers 1 and --workers %d", w),
-					map[string]any{"scenario": sc, "run_a": ref, "run_b": bo})
+				what := fmt.Sprintf("pint output differs between --workers 1 and --workers %d", w)
+				c := map[string]any{"scenario": sc, "run_a": ref, "run_b": bo}
+				if knownTie && bo.Exit == ref.Exit && bo.JSON == ref.JSON {
+					rep.failKnown(fmt.Sprintf("scen%d-w%d", si, w), what+" [console order of reports tying on the whole key that belong to different rules]", c, c11RuleTieFinding)
+				} else {
+					rep.fail(fmt.Sprintf("scen%d-w%d", si, w), what, c)
+				}
 				break
 			}
 		}
@@ -1283,7 +1355,7 @@ func runC11(args []string) int {
 		if sc.BaseFiles != nil { // pint ci: no in-process replica of the git finder; binary and race runs only
 			rep.count(fmt.Sprintf("%+v", sc), true)
 			rep.hist("kind=ci(binary only)")
-			runBinary(si, dir, sc, nil)
+			runBinary(si, dir, sc, nil, false)
 			continue
 		}
 		jobs, err := c11Jobs(dir)
@@ -1374,8 +1446,13 @@ func runC11(args []string) int {
 			} else if obs != first {
 				what := fmt.Sprintf("the result of the real check pipeline depends on the arrival order of reports (H1=%v H2=%v): workers=1 order vs an interleaving give different output", h1, h2)
 				c := map[string]any{"scenario": sc, "stream": desc, "order_a": firstOut, "order_b": o}
-				rep.fail(fmt.Sprintf("scen%d", si), what, c)
-				rep.hist("real:output-depends-on-arrival")
+				if h1 && !h2 && c11RuleTieClass(stream, desc) && o.JSONText == firstOut.JSONText {
+					rep.failKnown(fmt.Sprintf("scen%d", si), what+" [reports tying on the whole key that belong to different rules]", c, c11RuleTieFinding)
+					rep.hist("real:output-depends-on-arrival(known: tie across rules)")
+				} else {
+					rep.fail(fmt.Sprintf("scen%d", si), what, c)
+					rep.hist("real:output-depends-on-arrival")
+				}
 				outs = append(outs, o)
 				break
 			}
@@ -1391,7 +1468,7 @@ func runC11(args []string) int {
 		}
 		// C. the binary across worker counts
 		if si < nbin || heavy(sc) {
-			runBinary(si, dir, sc, &firstOut.JSONText)
+			runBinary(si, dir, sc, &firstOut.JSONText, h1 && !h2 && c11RuleTieClass(stream, desc))
 		}
 	}
 	must(os.Chdir(cwd))
